@@ -108,7 +108,7 @@ func checkParseResult(c *core.Ctx, src string, kinds string) (accepted bool) {
 		c.Violation("error-type", fmt.Sprintf("Parse error is %T with no entries", err), src, nil)
 		return false
 	}
-	lines := strings.Split(strings.SplitN(src, "\x00", 2)[0], "\n")
+	lines := strings.Split(src, "\n")
 	var shapes []string
 	for _, e := range perrs {
 		c.Event("errors_checked", 1)
@@ -191,7 +191,7 @@ func checkTokens(c *core.Ctx, src string) (ok bool) {
 			return bad(t, fmt.Sprintf("position: recomputed line %d col %d", line, col))
 		}
 		if t.Type == lexer.EOF {
-			if t.Offset != len(runes) && runes[t.Offset] != 0 {
+			if t.Offset != len(runes) {
 				return bad(t, "eof: EOF before the end of the input")
 			}
 			break
